@@ -229,20 +229,20 @@ class SVRPEnv(RL4COEnvBase):
         ).all() and (sorted_pi[:, :-graph_size] == 0).all(), "Invalid tour"
 
         # make sure all required skill  levels are met
-        indices = torch.nonzero(actions == 0)
         skills = torch.cat(
             [torch.zeros(batch_size, 1, 1, device=td.device), td["skills"]], 1
         )
         skills_ordered = gather_by_index(skills, actions).reshape(
             [batch_size, actions.size(-1), 1]
         )
-        batch = start = tech = 0
-        for each in indices:
-            if each[0] > batch:
-                start = tech = 0
-                batch = each[0]
-            assert (
-                skills_ordered[batch, start : each[1]] <= td["techs"][batch, tech]
-            ).all(), "Skill level not met"
-            start = each[1] + 1  # skip the depot
-            tech += 1
+        # The technician serving a position is the number of depot visits before it. This also
+        # covers the last route, which does not end with a depot visit; trailing depot visits
+        # (finished instances waiting for others) use no new technician
+        is_depot = actions == 0
+        tech_idx = (is_depot.cumsum(-1) - is_depot.long()).clamp(
+            max=td["techs"].size(-2) - 1
+        )
+        tech_skills = td["techs"].squeeze(-1).gather(1, tech_idx)
+        assert (
+            (skills_ordered.squeeze(-1) <= tech_skills) | is_depot
+        ).all(), "Skill level not met"
